@@ -121,7 +121,7 @@ def oracle_job(job):
     n, bad, acc = 0, [], 0
     for base, vs in job["groups"]:
         try:
-            want = common.with_alarm(2.0, outcome, pp, root, base)
+            want = common.with_alarm_retry(2.0, outcome, pp, root, base)
         except common.CaseTimeout:
             continue
         if want[0] != "ok":
@@ -130,7 +130,7 @@ def oracle_job(job):
         for v in vs:
             n += 1
             try:
-                got = common.with_alarm(2.0, outcome, pp, root, v)
+                got = common.with_alarm_retry(2.0, outcome, pp, root, v)
             except common.CaseTimeout:
                 got = ["hang"]
             if got != want:
